@@ -13,5 +13,7 @@ echo "== demo with change"; go test -vet=off -count=1 -run 'TestSeeded' . 2>&1 |
 rm -f /repo/zz_demo_test.go
 echo "== suite with change"; go test -vet=off -count=1 ./... 2>&1 | grep -v "no test files" | tail -3
 echo "== build -tags verif"; go build -tags verif ./... 2>&1 | tail -2
+cp /verif/evidence/$P.json /tmp/evidence.$P.bak 2>/dev/null
 echo "== check $P ($TIER)"; cd /verif && ./check "$P" --tier "$TIER" 2>&1 | cut -c1-600 | tail -12
+cp /tmp/evidence.$P.bak /verif/evidence/$P.json 2>/dev/null
 git -C /repo checkout -- . ; git -C /repo status --porcelain | head -3
